@@ -21,10 +21,7 @@ NOT_APPLICABLE = {
     'C28': 'deadlock freedom over RwLock acquisition order across async tasks: whole-history, no model in this family',
     'C29': 'interleavings of reload with notifications: schedules, not function contracts',
     'C30': 'debounce timers and cancellation across tasks: schedules, not function contracts',
-    'C32': 'determinism w.r.t. hashbrown iteration order and serde_json merging; the order of a foreign hash map is not expressible as a function contract here; Kani cannot compile serde_json/hashbrown harnesses (compiler ICE)',
-    'C33': 'resolution is regex / Path / string-split driven (opaque dependencies); a contract would only restate the three-step order',
     'C34': 'conversion is url::Url + percent_encoding: dependency code',
-    'C35': 'export is iterator pipelines over the whole db; reproducibility is hash-order determinism',
     'C37': '8.8 kLoC of byte-offset markup parsing over rowan tokens; only the final sort_by_key is in reach, which is the std contract',
     'C39': 'crash points and ENOSPC between open(O_TRUNC) and write are OS states, not pre/post states of a Rust function',
     'C40': 'whole converter -> string -> parser pipeline',
